@@ -18,6 +18,9 @@ from checks import c11
 PROPS = '{"C09"}'
 
 
+FOREIGN_ENGINES = [bytes([0x80, 0, 0x1f, 0x88, 0x80, 9, 9, 9, 9]), bytes([0x80, 0, 0, 2, 1] + list(range(20))), bytes([0x80, 0, 0x1f, 0x88, 7])]
+
+
 def make_cfg(alg, priv, kt, elen, ulen, idx):
     engine = bytes([0x80, 0, 0x1f, 0x88, 0x80] + [(i * 7 + idx) % 256 for i in range(elen - 5)])
     user = ("u" * ulen) if ulen else ""
@@ -50,6 +53,11 @@ def one_session(rec, cfg, plan, other, sid=1):
         if w is None:
             continue
         req = ag.Request(cfg, w)
+        if j in (1, 4) and not req.broken:
+            # a Report that echoes the msgID and user name but names another (non-empty) engine id arrives first: whatever the session
+            # makes of it, the messages that follow must carry a MAC under the key localised to the engine id they name
+            s.inject(agent.report(cfg, req, engine=FOREIGN_ENGINES[(sid + j + len(cfg.engine)) % len(FOREIGN_ENGINES)]))
+            s.recv(op)
         if op == "refresh":
             d = agent.report(cfg, req, boots=boots, time=tm, mac="valid" if cfg.auth != "none" else "absent",
                              flag_auth=cfg.auth != "none", enc="ok" if cfg.priv != "none" else "plain", flag_priv=cfg.priv != "none")
